@@ -183,8 +183,59 @@ fn c12_matches(ctx: &mut Ctx) {
 }
 
 /// C12: depth limit, state target, finish conditions.
+/// C12 "with a timeout it stops within a bounded delay after expiry for every thread count": models that are effectively
+/// unbounded for the time the oracle waits (a long chain: the frontier never has more than one job; a binary tree: wide
+/// frontier). The timeout thread polls once per second, a block is 1500 states: 6 s is generous.
+#[derive(Clone)]
+pub struct Long { pub wide: bool, pub limit: u64 }
+impl stateright::Model for Long {
+    type State = u64;
+    type Action = u8;
+    fn init_states(&self) -> Vec<u64> { vec![1] }
+    fn actions(&self, s: &u64, a: &mut Vec<u8>) { if *s < self.limit { a.push(0); if self.wide { a.push(1); } } }
+    fn next_state(&self, s: &u64, a: u8) -> Option<u64> { Some(if self.wide { 2 * *s + a as u64 } else { *s + 1 }) }
+    fn properties(&self) -> Vec<stateright::Property<Self>> { vec![stateright::Property::sometimes("never", |_, _| false)] }
+}
+
+pub fn c12_timeout(ctx: &mut Ctx) {
+    use stateright::{Checker, Model};
+    use std::time::{Duration, Instant};
+    for (shape, wide) in [("chain", false), ("tree", true)] {
+        for strat in ["bfs", "dfs"] {
+            for threads in [1usize, 2] {
+                let case = format!("c12.timeout:{}:{}x{}", shape, strat, threads);
+                if !ctx.want(&case) { continue; }
+                // ~30 million states: far more than can be evaluated while the oracle waits, yet finite (a run that
+                // ignores the timeout ends by itself and frees its memory)
+                let m = Long { wide, limit: if wide { 1 << 24 } else { 30_000_000 } };
+                let t0 = Instant::now();
+                let b = m.checker().threads(threads).timeout(Duration::from_millis(1500));
+                // done: is_done() within the bound AND the workers really stopped (the state count no longer moves)
+                let (done_after, states, still_running) = {
+                    let poll = |c: &dyn Fn() -> (bool, usize)| {
+                        let mut r = (false, 0usize);
+                        while t0.elapsed() < Duration::from_secs(9) { r = c(); if r.0 { break; } std::thread::sleep(Duration::from_millis(20)); }
+                        std::thread::sleep(Duration::from_millis(1600));
+                        let a = c().1;
+                        std::thread::sleep(Duration::from_millis(500));
+                        let b = c().1;
+                        (r.0, b, a != b)
+                    };
+                    if strat == "bfs" { let c = b.spawn_bfs(); let r = poll(&|| (c.is_done(), c.unique_state_count())); std::mem::forget(c); r }
+                    else { let c = b.spawn_dfs(); let r = poll(&|| (c.is_done(), c.unique_state_count())); std::mem::forget(c); r }
+                };
+                let elapsed = t0.elapsed().as_millis();
+                if std::env::var("ORACLE_DEBUG").is_ok() { eprintln!("{} done={} after {} ms states={} still_running={}", case, done_after, elapsed, states, still_running); }
+                ctx.check(&case, "c12-timeout-not-honoured", &["WL.worker-loop (a closed market is noticed only when work is shared)"], done_after && !still_running,
+                    format!("is_done()={} after {} ms, {} states so far, workers still generating states afterwards: {}", done_after, elapsed, states, still_running), "the check stops within a bounded delay after the 1500 ms timeout (polled once per second)".into());
+            }
+        }
+    }
+}
+
 pub fn c12(ctx: &mut Ctx) {
     c12_matches(ctx);
+    c12_timeout(ctx);
     for (gi, (n, inits, edges, bound)) in graphs(seed(), thorough()).into_iter().enumerate() {
         let g = mk(n, &inits, &edges, bound, vec![(Expectation::Sometimes, 0)]);
         let dist = g.dist();
